@@ -61,6 +61,12 @@ CLAIMED.update({
    note="Library/Netlist roots: containment shape concrete per listed shape (cube split), links symbolic. List aliasing between heap fields is modelled. Outside: non-atom user data, unlisted shapes.", design_ref="§4 C07"),
 })
 
+CLAIMED.update({
+ "C20": dict(engine="E1", technique="bounded symbolic execution of the real Comparer and query functions over two netlists in one symbolic heap (containment shape concrete, links/names/attributes symbolic) + z3",
+   text="Bounded: with B constrained position-wise identical to A, z3 shows Comparer.compare cannot raise; with exactly one planted difference of each documented kind (port direction, name, instance reference incl. same-named cells in two libraries, a net touching another pin/bit, port width, cable width, instance count) it shows an exception is always raised. Counterexamples are rebuilt through the public API and the real Comparer is run on them.",
+   note="Preconditions: self-contained, named, sibling-unique, nets local to their definition. Outside: property values, unnamed elements, larger shapes.", design_ref="§4 C20"),
+})
+
 NA_REASON = "check not built yet in this round (see DESIGN.md §7 build order); no claim is made"
 
 def main():
